@@ -13,7 +13,8 @@ SPEC = dict(
          'with the reference verdict (byte mutations the reference parser does not understand are executed for memory safety only and not counted). '
          'Further: every verdict is repeated with admissible input levels and in a long-lived verification context; RFC3161 algorithm ids beyond 32 bits; part builder (KSI_SignatureBuilder closed again after a refused close with changed components). '
          'RFC3161 record index with one element more / less than the first chain\'s. '
-         'Calendar chain without aggregation time element whose links have the shape of the previous second.',
+         'Calendar chain without aggregation time element whose links have the shape of the previous second. '
+         'Builder scenarios with a root level (the level added to the first link breaks / completes the chain); the padding element coded with the long header (as carried, and hashed as if short).',
     bounds=dict(
         quick='f2: 1440 bases; f1: chain shapes {1},{2},{1,1},{2,1},{1,2} links with 16 descriptors per link; single: 48 bases x 34 mutations; pairs: 8 bases x 561 pairs; byte: 2 bases x every offset x 4 operators',
         thorough='f1: shapes up to {2,2} and {1,1,1} with 24 descriptors per link; pairs on all 48 bases; byte mutations on 7 bases'),
